@@ -176,6 +176,10 @@ def compare(lines, model, checked, release):
             if m == "bad-request":
                 dis.append((i, "bad-request"))
             continue
+        if m == "@impl":
+            if c == "bad-request":
+                dis.append((i, "bad-request"))
+            continue
         if m == "bad-request" or c == "bad-request":
             dis.append((i, "bad-request"))
         elif m.startswith("ok") and lines[i].startswith("sweep "):
